@@ -191,8 +191,14 @@ def impl(case):
     m, xs, _ = build_model(case)
     names = [x.name for x in xs]
     litmap = [[[v, b] for v, b in x.bool_vars.items()] for x in xs]
-    cap = {"cnf": None, "assumptions": [], "sat_models": None, "sat_status": None, "sat_timeout": False}
+    cap = {"cnf": None, "assumptions": [], "sat_models": None, "sat_status": None, "sat_timeout": False,
+           "used_sat": False}
     real = enc_mod.solve_sat
+    real_init = enc_mod.SATEncoder.__init__
+
+    def init_wrapper(self, model):
+        cap["used_sat"] = True  # the back-end that answers: a SATEncoder was created
+        real_init(self, model)
 
     def wrapper(clauses, **kw):
         cap["cnf"] = [[int(l) for l in c] for c in clauses]
@@ -215,6 +221,7 @@ def impl(case):
         return r
 
     enc_mod.solve_sat = wrapper
+    enc_mod.SATEncoder.__init__ = init_wrapper
     out = dict(cap)
     try:
         kw = {"solution_limit": case["limit"], "solver": case["solver"]}
@@ -229,6 +236,7 @@ def impl(case):
             return out
     finally:
         enc_mod.solve_sat = real
+        enc_mod.SATEncoder.__init__ = real_init
     out = dict(cap)
 
     hidden = set(case.get("hidden") or [])
@@ -269,7 +277,9 @@ def hint_pairs(case):
 def to_request(case, pcons, out, mode):
     ok = out[0] == "ok"
     o = out[1] if ok else {}
-    sols = o.get("sols") or []
+    sols = list(o.get("sols") or [])
+    if case.get("plant") is not None:  # judged by the verified evaluator as the last entry
+        sols.append(list(case["plant"]))
     litmap = o.get("litmap")
     if litmap is None:  # implementation failed before anything came back: the encoder's documented numbering
         litmap, b = [], 1
@@ -286,9 +296,10 @@ def normalise_cnf(cnf):
 
 
 def run_model(cases, outs, mode):
-    """Returns (protocol constraints per case, parsed replies)."""
+    """Returns (protocol constraints per case, parsed replies).  A case marked `"big": true` (routing
+    family, domains too large for exhaustive enumeration) is sent with mode bit 3 (no enumeration)."""
     pcs = [proto_model(c) for c in cases]
-    reqs = [to_request(c, pc, o, mode) for c, pc, o in zip(cases, pcs, outs)]
+    reqs = [to_request(c, pc, o, (mode | 8) if c.get("big") else mode) for c, pc, o in zip(cases, pcs, outs)]
     replies = Driver("Cp").run(reqs, chunks=16)
     for rp in replies:
         if rp and rp[0] == "error":
@@ -306,8 +317,11 @@ def unpack(reply):
 
 
 def path_of(case, choose_sat):
-    """Which back-end answers: `sat` for solver='sat', and for auto/dfs when a SAT-only kind is present."""
-    return "sat" if case["solver"] == "sat" or choose_sat else "dfs"
+    """Which back-end answers according to the mirror (`choose_sat` = [auto rule, dfs fallback]):
+    solver='sat' -> sat; 'auto' -> `_choose_solver`; 'dfs' -> sat only when a SAT-only kind is present."""
+    if case["solver"] == "sat":
+        return "sat"
+    return "sat" if choose_sat[0 if case["solver"] == "auto" else 1] else "dfs"
 
 
 def nontrivial(case):
@@ -482,6 +496,43 @@ def gen_model(rng, weights, big=False):
         else:
             cons.append(gen_global(rng, vars_, plant, k, big))
     return vars_, cons, plant
+
+
+def gen_routing(rng, big_ok=True):
+    """Family where the back-end chosen by solver='auto' matters: an operator-built sum over k variables
+    (random association, reversed operands, unit coefficients) ==/!= a target, with all_different, over domains
+    large enough that a leaf-check-only DFS does not finish; a planted assignment keeps `==` feasible."""
+    k = rng.choice([2, 3, 3, 4, 5, 6, 7, 8]) if big_ok else rng.choice([2, 3, 3, 4])
+    d = k + rng.choice([1, 2, 3, 4])
+    vars_ = [[0, d] for _ in range(k)]
+    top = list(range(d - k + 1, d + 1))
+    plant = top if rng.random() < 0.7 else rng.sample(range(0, d + 1), k)
+    plant = list(plant)
+    rng.shuffle(plant)
+    terms = [["v", i] for i in range(k)]
+    if rng.random() < 0.3:
+        j = rng.randrange(k)
+        terms[j] = ["*", terms[j], ["c", 1]] if rng.random() < 0.5 else ["*", ["c", 1], terms[j]]
+    rng.shuffle(terms)
+    e = terms[0]
+    for t in terms[1:]:
+        e = ["+", e, t] if rng.random() < 0.6 else ["+", t, e]
+    target = sum(plant)
+    r = rng.random()
+    if r < 0.7:
+        con = ["==", e, ["c", target]] if rng.random() < 0.7 else ["==", ["c", target], e]
+    elif r < 0.85:
+        con = ["!=", e, ["c", target]]
+        plant = None
+    else:  # a variable cancels: one term fewer after merging
+        # (Expr - IntVar is a TypeError in the library, Expr - Expr is not)
+        con = ["==", ["-", e, ["+", ["v", 0], ["c", 0]]], ["c", target - plant[0]]]
+    cons = [["alldiff", list(range(k))], con]
+    if rng.random() < 0.5:
+        cons.reverse()
+    if plant is not None and len(set(plant)) != k:
+        plant = None
+    return vars_, cons, plant, (d + 1) ** k > 30000
 
 
 def gen_hidden(rng, vars_):
